@@ -1,5 +1,34 @@
 """C17 — pipelines are selected and compiled independently."""
+import re
+
 T = "RsslVerif.Thm.C17."
+
+KEY_INSTANTIATION = "property-value-instantiates-template"
+
+
+def finding_key(req, obs, detail):
+    """One class: a Pipeline block has a property value `z:<template>` (= `sizeof(<template><uint>(1u))`, accepted, value 4)
+    whose type check instantiates a function template; the instantiated function is then part of the module, so the
+    source of every *other* pipeline of the file (and of no-pipeline mode) contains it - and does not when that block is
+    deleted.  Only these two oracle verdicts, only when an active block other than the failing one carries such a value."""
+    f = req.split("\t")
+    m = re.match(r"FAIL:panic ([^:]+):\d+: (.*)$", detail or "")
+    if m:
+        return f"panic {m.group(1)}: " + re.sub(r"\d+", "N", m.group(2))
+    if f[0] == "C17.wide" and len(f) == 7 and detail:
+        on = f[3].startswith("on")
+        inst = []
+        for it in f[4].split(" | "):
+            w = it.split(" ")
+            if w[0] == "P" and len(w) > 3 and not ("D" in w[2] and not on) and not ("E" in w[2] and on):
+                if any("=z:" in x for x in w[3:]):
+                    inst.append(w[1])
+        m = re.match(r"FAIL:pipeline (\S+) by name Ok\(1 pipelines, [^)]*\) but alone in the file Ok\(1 pipelines, ", detail)
+        if m and any(n != m.group(1) for n in inst):
+            return KEY_INSTANTIATION
+        if inst and detail == "FAIL:no-pipeline output depends on the pipeline definitions in the file":
+            return KEY_INSTANTIATION
+    return req
 
 
 def nontrivial(req, obs):
@@ -64,9 +93,13 @@ SPEC = {
         "Typer.registry_ignores_pipelines", "Typer.typeCheck_pipelines_map", "Typer.typeCheck_names_nodup",
         "Typer.typeCheck_delete_others", "Typer.independent_of_other_pipelines_file",
         "Typer.whole_file_one_result_per_block", "Typer.front_error_independent_of_mode",
-        "Typer.reported_entry_name_ignores_pipelines", "Typer.reported_entry_names_distinct"]],
+        "Typer.reported_entry_name_ignores_pipelines", "Typer.reported_entry_names_distinct",
+        "Typer.elabCore_depends_on_named_entries", "Typer.attributes_from_definition",
+        "Typer.instancesOf_deletePipes", "Typer.independent_of_other_pipelines_module_partial",
+        "Typer.module_depends_on_instantiating_block"]],
     "harness": "c17",
     "nontrivial": nontrivial,
+    "finding_key": finding_key,
     "harness_args": harness_args,
     "search": search,
     "rule": "(1) progen shader files (0-4 pipelines: compute, vertex+pixel, mesh+pixel, task+mesh; shared and private entry "
@@ -82,6 +115,12 @@ SPEC = {
             "validation, forced buffer address}; the oracle compares, on the real compile(), every pipeline compiled by name, "
             "as part of the whole file, and alone in a file whose other Pipeline blocks were deleted (bytes, stages, "
             "metadata, pipeline state), and the same at the level of the type checker's IR pipeline list; "
+            "final wave additions to the wide programs: numthreads arguments that do not evaluate (negative, 2^32, float, not "
+            "constant) on entry points and on functions nobody names, prototype / definition pairs with different or missing "
+            "numthreads (prototype before and / or after the definition), `ns1::f` and `::f` entry values, one well-formed but "
+            "unknown / out-of-range state value per program, integer values that are typed but not constant, values whose type "
+            "check instantiates a function template (`sizeof(wide_tf<uint>(1u))`), 4 more entry signature shapes (plain "
+            "per-primitive mesh output, pixel with system-value inputs, compute with every thread id, vertex with instance id); "
             "non-trivial = the file defines at least two pipelines",
     "level_text": "Proof: (a) compile()'s selection loop is modelled for an arbitrary build function and proved, for any number of "
                   "pipelines with distinct names, to return one result per definition in source order, exactly the named "
@@ -99,8 +138,20 @@ SPEC = {
                   "and are obligations; (c) the entry name in the HLSL stage report is the leaf name of the whole-module name "
                   "map (C15's model of NameMap::build composed with the registry; reserved words re-extracted): proved to be "
                   "the same with any other Pipeline blocks deleted and never shared by two functions of one namespace; "
-                  "the claim that build_pipeline depends only on the selected pipeline is carried by the "
-                  "type of the model's build parameter, by the reader inventory, and by the metamorphic run on the real compiler.",
+                  "(d) add_stage's attribute loop is in the model: a numthreads argument of the entry's *definition* that does "
+                  "not evaluate to a u32 rejects exactly the blocks that name the function (location-less diagnostic), the "
+                  "thread-group size is the definition's whatever a prototype says (attributes_from_definition), and a block "
+                  "depends on the registry only through the entry functions it names (elabCore_depends_on_named_entries). "
+                  "(e) NEGATIVE RESULT on the pinned code: a property value whose type check instantiates a function template "
+                  "(`DefaultBindGroup = sizeof(tf<uint>(1u))`) leaves the instantiation in the module, so the source of every "
+                  "other pipeline depends on that block being in the file: module_depends_on_instantiating_block is the "
+                  "machine-checked witness (replayed on the real compiler by the corpus, known finding "
+                  "property-value-instantiates-template); with the hypothesis that the deleted blocks have no such value the "
+                  "independence theorem holds for build functions that see registry + instantiations + selected pipeline "
+                  "(independent_of_other_pipelines_module_partial; the hypothesis is what is missing for full strength). "
+                  "23 exact-text fingerprints now (numthreads evaluation, extract_uint32 on the live context). "
+                  "The claim that build_pipeline depends only on the selected pipeline (and the module's functions) is carried by "
+                  "the type of the model's build parameter, by the reader inventory, and by the metamorphic run on the real compiler.",
     "trusted_base": [
         "Lean 4.33 kernel; axioms propext / Classical.choice / Quot.sound only",
         "tools/gens/c17.py: regex / exact-text facts about compile(), build_pipeline, select_pipeline, assign_api_bindings, "
@@ -110,11 +161,23 @@ SPEC = {
         "C17.typer correspondence run (IR pipeline list or diagnostic kind + property path)",
         "modelling assumption: build_pipeline reads the pipeline list only through the selected index "
         "(inventory + metamorphic correspondence; not a theorem about the Rust code)",
-        "modelling assumption: evaluating a property value (parse_expr + evaluate_constexpr) does not register functions",
+        "modelling assumption: evaluating a property value (parse_expr + evaluate_constexpr) adds nothing to the module except "
+        "the template instantiations counted by `instancesOf` (value kind `z:`); FALSE without that exception on the pinned "
+        "code - see the known finding; instantiations made by function *bodies* are not generated (the entry lookup is "
+        "insensitive to them: a template's name is never an entry)",
+        "harness/src/c17/wgen.rs renders thread components `x<k>` as `-1` / `4294967296` / `1.5` / `lds_payload.start_location` and "
+        "`v:0` as `lds_payload.start_location`; the model takes 'does not evaluate to a u32' from the encoding (tied by the "
+        "C17.typer / C17.wide correspondence: `err:other:error: state requires an integer argument`)",
         "Model/PipelineNames.lean + Model/Names.lean (C15's model of NameMap::build, proved there) give the reported HLSL entry "
         "name; Driver/C17.lean `othersOf` lists the non-function symbols of a wide program by hand (preamble structs / globals, "
         "method structs, resources, statics); Gen/Reserved.lean (tools/gens/c15.py) = RESERVED_NAMES of hlsl/src/names.rs; "
         "tied by the C17.wide correspondence run (generator adds same-named functions to ~40 % of the programs)",
     ],
-    "assumptions": ["HashMap iteration order does not influence outputs (C07)"],
+    "assumptions": ["HashMap iteration order does not influence outputs (C07)",
+                    "covered by the correspondence run and its oracle only (not predicted by the model): the bytes / metadata of "
+                    "the new entry signature shapes u f g w (per-primitive analysis, system-value pixel inputs) - the model "
+                    "predicts their stage reports, thread-group sizes and state; the emitted text of a template instantiation "
+                    "(the model only counts which instantiations the module contains)",
+                    "a second numthreads attribute on one function, malformed static samplers and redefinitions are front-end "
+                    "errors at a declaration, outside pipeline processing (err:decl / unsupported: 0 in quick and thorough)"],
 }
